@@ -107,8 +107,8 @@ def encode_event(run, fn, args, lineno, check_binding=True):
     env = run.cur_env
     if check_binding:
         for p in params:
-            if p in SHARED and p in bound:
-                have = env[p] if p in env else None
+            if p in SHARED and p in bound and p in env:
+                have = env[p]
                 a = bound[p]
                 same = (a is have) or (z3.is_expr(a) and z3.is_expr(have) and a.eq(have))
                 run.oblige('site', 'event-binding:%s.%s' % (fn.qualname, p), lineno, BoolVal(bool(same)))
